@@ -116,12 +116,46 @@ def phase_grammar(ctx, only=None, edits=True):
     dump = os.path.join(d, "og")
     poolf = os.path.join(d, "pools.json")
     cfg = ctx.pick("ObjGrammar_quick_cases.cfg", "ObjGrammar_thorough_cases.cfg")
-    res = tlc.run("ObjGrammar.tla", cfg, workers=8, dump_states=dump, env={"POOL_FILE": poolf},
-                  timeout=ctx.pick(300, 1500))
-    ctx.add_tlc(f"ObjGrammar[{cfg}] enumeration of the cases with their token sequences; WellFormed, TreeSorted", res)
+    # Initial states are computed by one thread in TLC: the thorough tier enumerates the commit space in
+    # two halves (Part 1, 2) and the other kinds in a third TLC process, side by side; same module, same
+    # constants otherwise.  The dumps are concatenated (a case that is in both halves is the same state).
+    import re
+    import threading
+    from ..tlc import SPECS
+    base = open(os.path.join(SPECS, cfg)).read()
+    variants = [("all", None, 0)] if ctx.quick or only is not None else \
+        [("commit-1", '{"commit"}', 1), ("commit-2", '{"commit"}', 2), ("tag-tree-blob", '{"tag", "tree", "blob"}', 0)]
+    runs = {}
+
+    def cases_run(name, kinds, part):
+        text = base
+        if kinds:
+            text = re.sub(r"Kinds = .*", "Kinds = " + kinds, text)
+            text = re.sub(r"Part = .*", f"Part = {part}", text)
+        path = os.path.join(d, f"cases-{name}.cfg")
+        with open(path, "w") as f:
+            f.write(text)
+        runs[name] = tlc.run("ObjGrammar.tla", path, workers=ctx.pick(8, 3), dump_states=os.path.join(d, "og-" + name),
+                             env={"POOL_FILE": poolf if name in ("all", "commit-1") else os.path.join(d, "pools-" + name + ".json")},
+                             timeout=ctx.pick(300, 1500))
+    ths = [threading.Thread(target=cases_run, args=v) for v in variants]
+    for t in ths:
+        t.start()
+    for t in ths:
+        t.join()
+    ndist = 0
+    with open(dump + ".dump", "w") as out:
+        for name, _, _ in variants:
+            r = runs.get(name)
+            if r is None:
+                raise MachineryError(f"TLC run {name} did not return")
+            ctx.add_tlc(f"ObjGrammar[{cfg} {name}] enumeration of the cases with their token sequences; WellFormed, TreeSorted", r)
+            ndist += r.distinct
+            with open(os.path.join(d, "og-" + name + ".dump")) as f:
+                out.write(f.read())
+    res = runs[variants[0][0]]
     # the one-field-edit graph over the same cases (lemmas OtherSegsStable, TreeEditLocal) is explored
     # by a second TLC while the children replay the cases
-    import threading
     ecfg = ctx.pick("ObjGrammar_quick_edits.cfg", "ObjGrammar_thorough_edits.cfg")
     box = {}
 
@@ -135,9 +169,9 @@ def phase_grammar(ctx, only=None, edits=True):
     ctx.pools, ctx.dump, ctx.poolf = pools, dump + ".dump", poolf
     table = {(k, key): toks for k, key, toks in L.read_dump(ctx.dump)}
     ctx.table = table
-    if len(table) != res.distinct:
-        raise MachineryError(f"dump has {len(table)} cases, TLC reported {res.distinct} states")
-    ctx.log(f"ObjGrammar: {res.distinct} cases, {res.generated} states generated, {res.wall_s:.1f}s")
+    if len(table) > ndist or (len(variants) == 1 and len(table) != ndist):
+        raise MachineryError(f"dump has {len(table)} cases, TLC reported {ndist} states")
+    ctx.log(f"ObjGrammar: {len(table)} cases ({ndist} states in {len(variants)} TLC run(s)), {max(r.wall_s for r in runs.values()):.1f}s")
     # spec sanity (injectivity on each kind, except the documented aliases): different cases of one
     # kind that render to the same bytes would make 'parse returns the same values' ill-defined
     nshard = ctx.pick(8, NPROC)
@@ -163,7 +197,7 @@ def phase_grammar(ctx, only=None, edits=True):
     ctx.grammar_fails = fails
     ctx.log(f"grammar replay: {tot} failures={sum(r['nfail'] for r in results)}")
     report_failures(ctx, pools, fails, "grammar")
-    ctx.n_cases = res.distinct
+    ctx.n_cases = len(table)
     return pools
 
 
@@ -173,7 +207,7 @@ def finish_edit_graph(ctx):
     eres = box.get("res")
     if eres is None:
         raise MachineryError("TLC run of the edit graph did not return")
-    ctx.add_tlc(f"ObjGrammar[{ecfg}] one-field-edit graph; OtherSegsStable, TreeEditLocal, WellFormed, TreeSorted", eres)
+    ctx.add_tlc(f"ObjGrammar[{ecfg}] one-field-edit graph; OtherSegsStable (+ every edit changes the bytes unless it is the same object), TreeEditLocal, WellFormed, TreeSorted", eres)
     if eres.distinct != ctx.n_cases:
         raise MachineryError(f"edit graph has {eres.distinct} states, case enumeration {ctx.n_cases}")
 
@@ -684,12 +718,33 @@ def run(ctx):
     phase_fuzz(ctx)
     phase_git(ctx)
     finish_edit_graph(ctx)
-    ctx.cov["rule"] = ("grammar: one case per TLC state of ObjGrammar (all commits/tags within Hamming distance Radius of two "
-                       "base cases over the field pools, all trees up to TreeMax entries over the ordering universe and all "
-                       "legal modes, blob chunkings); each is built, serialised, named (SHA-1 and SHA-256), parsed and edited on "
-                       "the real classes; distinct = distinct (kind, case); every case is non-trivial (a full object)")
-    ctx.assumptions += ["hashlib SHA-1/SHA-256 are trusted", "C git 2.39.5 is the only git version compared with",
-                        "atoms (identities, lines, names) are opaque LF-free byte strings drawn from pools listed in harness/c01_lib.py"]
+    ctx.cov["rule"] = (
+        "evaluations = operations executed on real dulwich objects (builds, parses, one-field edits, life-cycle steps, random "
+        "objects, git-made objects).  Distinct non-trivial cases, counted: (a) one per TLC state of ObjGrammar = (kind, case): "
+        "all commits/tags within Hamming distance Radius of three base cases over the field pools, all trees up to TreeMax "
+        "entries over the ordering universe plus all legal modes, the blob chunkings -- each built (several setter orders), "
+        "serialised, named under SHA-1 and SHA-256, parsed, re-serialised and edited in every single field whose result is in "
+        "the space; (b) one per distinct recorded life-cycle history (concretisation, origin, operation list) validated by TLC "
+        "against ObjFileTrace -- the state-graph behaviours replayed for edge coverage are counted in evaluations only; (c) one "
+        "per random object of the seeded stream judged by TLC against ObjGrammarTrace; (d) one per object written by C git. "
+        "Every case is a complete object, none is trivial (the empty tree and the empty blob are cases of their own).")
+    ctx.cov["trusted_base"] = ["CPython hashlib (SHA-1, SHA-256)", "TLC 1.8 / tla2tools, CommunityModules", "git 2.39.5 (third party, one version)"]
+    ctx.assumptions += [
+        "hashlib SHA-1/SHA-256 are trusted; H is treated as injective in ObjFile",
+        "atoms (identities, single lines, tag names, header keys, hex ids) are opaque LF-free byte strings; the enumerated spaces "
+        "draw them from the pools in harness/c01_lib.py, the random phase draws arbitrary bytes",
+        "canonical domain only: time zone offsets are whole minutes below 100 hours, extra header keys are not reserved words, a tag "
+        "message does not contain a signature armour line, embedded mergetags end with LF",
+        "message None and message b'' are the same object for an object built through the API (both serialise to the blank line "
+        "only); only a parsed object can lack the blank line",
+        "in a sha256 repository an object is named by get_id(SHA256); .id is accepted as either the SHA-1 or (when the object was "
+        "loaded with its sha256 name) the SHA-256 of the current content",
+        "git is compared on the objects it accepts: `git fsck --strict` rejects exactly the cases ObjGrammar!GitStrictOK predicts "
+        "(negative timestamps); commit-tree/tag/mktree cannot produce mergetag or unknown extra headers, those are compared "
+        "through hash-object and fsck only",
+        "the life-cycle model covers setter calls and reads; in-place mutation of a list returned by a getter (commit.parents.append) "
+        "is not an edit through the API and is not modelled",
+    ]
     return ctx.finish(exhaustive=False)
 
 
